@@ -613,6 +613,17 @@ private:
     return dyn_ty.get();
   }
 
+  // Count one more reference in a region. small_range::increment(v)
+  // leaves the counter 1(v) unchanged if v is the variable already
+  // counted. However, a second reference created through the same
+  // variable (inside a loop, or after the first one was copied or
+  // stored in memory) is another memory location of the region, so
+  // the region is not a singleton anymore.
+  static small_range increment_refcount(small_range count,
+                                        const variable_t &ref) {
+    return count.is_one() ? small_range::oneOrMore() : count.increment(ref);
+  }
+
   static void ERROR_IF_NOT_REGION(const variable_t &v, unsigned line) {
     if (!v.get_type().is_region()) {
       CRAB_ERROR(v, ":", v.get_type(), " is not a region at line ", line);
@@ -1183,7 +1194,7 @@ public:
     auto old_rgn_info = m_rgn_env.at(rgn);
     m_rgn_env.set(rgn,
                        region_domain_impl::region_info(
-                           old_rgn_info.refcount_val().increment(ref),
+                           increment_refcount(old_rgn_info.refcount_val(), ref),
                            old_rgn_info.init_val(), old_rgn_info.type_val()));
 
     if (crab_domain_params_man::get().region_allocation_sites()) {
@@ -1617,7 +1628,7 @@ public:
         // Update region counting
         auto old_rgn2_info = m_rgn_env.at(rgn2);
         m_rgn_env.set(rgn2, region_domain_impl::region_info(
-                                     old_rgn2_info.refcount_val().increment(ref2),
+                                     increment_refcount(old_rgn2_info.refcount_val(), ref2),
                                      old_rgn2_info.init_val(),
                                      old_rgn2_info.type_val()));
       }
@@ -1789,7 +1800,7 @@ public:
       auto old_rgn_info = m_rgn_env.at(rgn);
       m_rgn_env.set(rgn,
                          region_domain_impl::region_info(
-                             old_rgn_info.refcount_val().increment(ref_var),
+                             increment_refcount(old_rgn_info.refcount_val(), ref_var),
                              old_rgn_info.init_val(), old_rgn_info.type_val()));
     }
   }
